@@ -46,6 +46,53 @@ fn artifacts(
     Ok(out)
 }
 
+/// A key-table entry made with the public constructors (`from_ed25519*`,
+/// `from_ecdsa*`, `from_pem_spki`) where one of them can express the entry;
+/// decoded from its JSON description otherwise.
+fn public_key(k: &Value) -> Result<PublicKey, String> {
+    let algs: Option<Vec<String>> = match k.get("keyid_hash_algorithms") {
+        None | Some(Value::Null) => None,
+        Some(v) => Some(strings(v)?),
+    };
+    let public = k["keyval"]["public"].as_str().unwrap_or("");
+    let is_hex = public.len() % 2 == 0
+        && public.bytes().all(|c| c.is_ascii_hexdigit());
+    let default_algs =
+        Some(vec!["sha256".to_string(), "sha512".to_string()]);
+    let made = match (k["keytype"].as_str(), k["scheme"].as_str()) {
+        (Some("ed25519"), Some("ed25519")) if is_hex => Some(
+            PublicKey::from_ed25519_with_keyid_hash_algorithms(
+                unhex(public),
+                algs,
+            ),
+        ),
+        (Some("ecdsa"), Some("ecdsa-sha2-nistp256")) if is_hex => Some(
+            PublicKey::from_ecdsa_with_keyid_hash_algorithms(
+                unhex(public),
+                algs,
+            ),
+        ),
+        (Some("rsa"), Some("rsassa-pss-sha256")) if algs == default_algs => {
+            Some(PublicKey::from_pem_spki(
+                public,
+                in_toto::crypto::SignatureScheme::RsaSsaPssSha256,
+            ))
+        }
+        (Some("rsa"), Some("rsassa-pss-sha512")) if algs == default_algs => {
+            Some(PublicKey::from_pem_spki(
+                public,
+                in_toto::crypto::SignatureScheme::RsaSsaPssSha512,
+            ))
+        }
+        _ => None,
+    };
+    match made {
+        Some(Ok(key)) => Ok(key),
+        Some(Err(e)) => Err(format!("programming: key constructor: {}", e)),
+        None => crate::util::via_text(k).map_err(|e| e.to_string()),
+    }
+}
+
 fn rule(v: &Value) -> Result<ArtifactRule, String> {
     let r = strings(v)?;
     if r.len() < 2 {
@@ -142,7 +189,7 @@ pub fn build(doc: &Value) -> Result<MetadataWrapper, String> {
                 .expires(expires)
                 .readme(s(&doc["readme"])?);
             for (id, k) in doc["keys"].as_object().ok_or("keys")? {
-                let key: PublicKey = crate::util::via_text(k).map_err(|e| e.to_string())?;
+                let key: PublicKey = public_key(k)?;
                 if serde_json::to_value(key.key_id()).ok() != Some(Value::String(id.clone())) {
                     return Err("key table entry not under its own id".into());
                 }
